@@ -54,7 +54,8 @@ def compact(number):
 def validate(number):
     """Check if the number is a valid ATIN. This checks the length and
     formatting if it is present."""
-    match = _atin_re.search(clean(number, '').strip())
+    number = clean(number, '').strip()
+    match = _atin_re.search(number)
     if not match:
         raise InvalidFormat()
     # sadly, no more information on ATIN number validation was found
